@@ -20,6 +20,7 @@ func c07Specs(tier string) []*Spec {
 	}
 	k2 := bs("a", "b")
 	if tier == "quick" {
+		add("emptykey/d5", defaultCfg, [][]byte{{}, []byte("a")}, 5, 2, true)
 		addResave("resave/1key/d9", defaultCfg, 9)
 		add("default/d6", defaultCfg, keys, 6, 2, true)
 		add("default/2keys/d7-maint3", defaultCfg, k2, 7, 3, true)
@@ -28,6 +29,7 @@ func c07Specs(tier string) []*Spec {
 		add("flush150/d5", Cfg{Fast: true, Flush: 150}, keys, 5, 2, true)
 		return specs
 	}
+	add("emptykey/d7", defaultCfg, [][]byte{{}, []byte("a")}, 7, 2, true)
 	addResave("resave/1key/d11", defaultCfg, 11)
 	add("default/d7", defaultCfg, keys, 7, 2, true)
 	add("default/2keys/d9-maint3", defaultCfg, k2, 9, 3, true)
